@@ -96,7 +96,9 @@ OnOnce ==
 
 OnBeginTU ==
   IF intu \/ st.frames # <<>> THEN Bad("BeginTU inside a TU")
-  ELSE IF Ev.n1 # 0 THEN Bad("TU does not start with an empty include memo")
+  \* (a look-up memo that survives from an earlier TU is NOT rejected here: a cache as such does not influence
+  \*  anything - what it may return is judged on the outcomes, by the scenario checks of C04 / C08; the
+  \*  include-once set and the macro table are state of the translation unit itself and must start clean)
   ELSE IF Ev.n2 # 0 THEN Bad("TU does not start with an empty include-once set")
   ELSE IF {Ev.names[j] : j \in 1..Len(Ev.names)} # {Ev.dnames[j] : j \in 1..Len(Ev.dnames)}
        THEN Bad("TU does not start with exactly the -D macros defined")
